@@ -371,8 +371,8 @@ BUILDER = {
     },
     "C16": {
         "invariants": ["Inv_C16"],
-        "exh": {"quick": [("C16_DocsQ", 1, 2, "C16_RangeQ"), ("C16_Docs3", 1, 1), ("C16_DocsDot", 2, 2, "C16_RangeDot")],
-                "thorough": [("C16_Docs", 1, 2, "C16_Range"), ("C16_Docs3", 1, 3), ("C16_DocsDot", 2, 3, "C16_RangeDot")]},
+        "exh": {"quick": [("C16_DocsQ", 1, 2, "C16_RangeQ"), ("C16_Docs3", 1, 1), ("C16_DocsDot", 2, 2, "C16_RangeDot"), ("C16_DocsLE", 2, 2, "C16_RangeLE")],
+                "thorough": [("C16_Docs", 1, 2, "C16_Range"), ("C16_Docs3", 1, 3), ("C16_DocsDot", 2, 3, "C16_RangeDot"), ("C16_DocsLE", 2, 2, "C16_RangeLE")]},
         "mutations": [{"mutation": "PrevCopies", "docs": "C16_DocsQ", "range": "C16_RangeQ", "stages": (2, 2), "expect": ["Inv_C16"]},
                       {"mutation": "AppendPrepends", "docs": "C16_DocsQ", "range": "C16_RangeQ", "stages": (2, 2), "expect": ["Inv_C16"]}],
         "gen": _gen_c16, "random": {"quick": 1500, "thorough": 30000}, "max_stages": 4,
